@@ -2803,7 +2803,7 @@ class Entity(MutableMapping[str, str]):
                     buffer,
                     ind=ind+'\t',
                     disp_multiblend=disp_multiblend,
-                    include_groups=not _is_worldspawn,
+                    include_groups=_is_worldspawn,
                 )
         if len(self.outputs) > 0:
             buffer.write(ind + '\tconnections\n')
